@@ -81,8 +81,13 @@ func (t *linkTable) seq(it func(func(ipld.Block, error) bool)) (string, int, boo
 	return "[" + strings.Join(ids, "; ") + "]", n, okk
 }
 
+func mustSum(data []byte) mh.Multihash {
+	d, _ := mh.Sum(data, mh.SHA2_256, -1)
+	return d
+}
+
 func randBlock(r *rand.Rand) ipld.Block {
-	data := make([]byte, 1+r.Intn(40))
+	data := make([]byte, r.Intn(41)) // one in 41 has an empty payload: a complete, valid block
 	r.Read(data)
 	d, _ := mh.Sum(data, mh.SHA2_256, -1)
 	return block.NewBlock(cidlink.Link{Cid: cid.NewCidV1(0x55, d)}, data)
@@ -304,6 +309,45 @@ func init() {
 					direct = append(direct, map[string]any{"delegation": i, "what": "Parse(Format(Parse(Format(d)))) failed: " + err.Error()})
 				} else if why := sameDelegation(t, pd2, 0); why != "" {
 					direct = append(direct, map[string]any{"delegation": i, "what": "Parse(Format(Parse(Format(d)))) differs: " + why})
+				}
+			}
+			// history on one delegation object: archive, THEN attach a block, archive again — the new archive carries it
+			if i%3 == 0 {
+				extra := randBlock(r)
+				if i%2 == 0 {
+					extra = block.NewBlock(cidlink.Link{Cid: cid.NewCidV1(0x55, mustSum(nil))}, []byte{}) // empty payload
+				}
+				if err := t.d.Attach(extra); err == nil {
+					for _, how := range []string{"Archive/Extract", "Format/Parse"} {
+						var got delegation.Delegation
+						var err error
+						if how == "Archive/Extract" {
+							var ab3 []byte
+							ab3, err = io.ReadAll(t.d.Archive())
+							if err == nil {
+								got, err = delegation.Extract(ab3)
+							}
+						} else {
+							var fs3 string
+							fs3, err = delegation.Format(t.d)
+							if err == nil {
+								got, err = delegation.Parse(fs3)
+							}
+						}
+						if err != nil {
+							direct = append(direct, map[string]any{"delegation": i, "what": how + " after a later Attach failed: " + err.Error()})
+							continue
+						}
+						found := false
+						for b, err := range got.Blocks() {
+							if err == nil && b.Link().String() == extra.Link().String() && bytes.Equal(b.Bytes(), extra.Bytes()) {
+								found = true
+							}
+						}
+						if !found {
+							direct = append(direct, map[string]any{"delegation": i, "what": how + " after a later Attach: the block attached after the first archive is missing"})
+						}
+					}
 				}
 			}
 			// the archive's variant (root) block
